@@ -13,7 +13,7 @@ import json
 import os
 import subprocess
 
-from .. import core, impl, tlc, par, history
+from .. import core, impl, tlc, par, history, workers
 from ..tlc import MachineryError
 
 
@@ -156,6 +156,25 @@ def run(tier):
             for b in apis:
                 if a != b and (history.FILE_KIND[a] == history.FILE_KIND[b]):
                     histories.append(([["call", a, c], ["mutate", 1, ""], ["call", b, c]], None, "directed"))
+    # (e) method order on one object: what a returned object answers must not depend on which of its other read-only methods were called before
+    #     (the reference is the same method on a fresh object, i.e. what a fresh interpreter answers)
+    from .. import sweep
+    mo_inputs = []
+    for n in (2, 3, 4, 5, 6):
+        mo_inputs += sweep.inputs_classes(ck, n, 1, 1 if quick else 2, rng)
+    mo = par.pmap(workers.method_order, [(i["n"], i["codes"]) for i in mo_inputs])
+    for r in mo:
+        ck.count(("method-order", r["n"], tuple(r["codes"])), True)
+        if r["exc"]:
+            ck.violation(f"method-order {r['n']} {r['codes']}", f"class / stabilizer object of n={r['n']} generators {r['codes']} raises {r['exc']}", {"mo": [r["n"], r["codes"]]})
+            continue
+        diffs = [k for k in ("graph", "data", "exp") if r[k + "_fresh"] != r[k + "_after"]] + (["id"] if r["id"] != r["id_after"] else []) + (["arrays"] if r["tab_after"] != [c for c in r["codes"]] else [])
+        if diffs:
+            ck.violation(f"method-order {r['n']} {r['codes']}", f"n={r['n']} generators {r['codes']}: {diffs} answered differently after other read-only methods of the same object were called "
+                         f"(fresh object: graph {r['graph_fresh']} grouping {r['data_fresh']}; after id()/str()/==: graph {r['graph_after']} grouping {r['data_after']})", {"mo": [r["n"], r["codes"]]})
+        else:
+            ck.accepted()
+    ck.cov["method_order_objects"] = len(mo)
     core.dbg("histories", len(histories))
     # ---- replay into the real library (forked children with cold caches) ----------------------------------------------
     nserv = core.NCPU
@@ -218,6 +237,11 @@ def run(tier):
 
 def replay(path):
     p = json.load(open(path))["payload"]
+    if "mo" in p:
+        r = workers.method_order(tuple(p["mo"]))
+        diffs = [k for k in ("graph", "data", "exp") if r.get(k + "_fresh") != r.get(k + "_after")]
+        print("replayed:", r.get("exc"), "differences:", diffs)
+        return 1 if (diffs or r.get("exc")) else 0
     if "history" not in p:
         print(p)
         return 1
